@@ -16,7 +16,9 @@ import seqextra
 
 THEOREMS = {"C01.v": json.load(open(os.path.join(os.path.dirname(__file__), "_theorems.json")))["C01"],
             # links between the machines and the sequential models (solo runs)
-            "Links.v": ["Link_M1_solo_is_sequential", "Link_M2_solo_is_sequential", "Link_UpperInv_SInv"]}
+            "Links.v": ["Link_M1_solo_is_sequential", "Link_M2_solo_is_sequential", "Link_UpperInv_SInv"],
+            # the whole allocator under every interleaving (machine M2)
+            "Conc.v": ['Conc_upper_safe', 'Conc_upper_safe_with_changes']}
 
 
 def jobs(ctx, rel):
